@@ -338,6 +338,12 @@ def construct(eng, st, target, args, kwargs, node):
         outs = []
         from .calls import bind_params
         module_, fdef_ = eng.repo.func(f"{target}.__init__")
+        # declared fields the constructor's contract does not fix are arbitrary values of their declared type, constrained
+        # only by the constructor's ensures clauses
+        cell0 = st.heap[ident]
+        for fld, fty in fields.items():
+            if fld not in c.initializes and fld not in cell0:
+                cell0[fld] = sym_field(eng, st, f"{cname}_{fld}", fty)
         for s, _ in contract_call(eng, st, f"{target}.__init__", [ref] + args, kwargs, node):
             if c.initializes:
                 bound = bind_params(eng, c, fdef_, module_, [ref] + list(args), kwargs)
